@@ -307,14 +307,20 @@ package graph
 
 // RemoveVertex(v): the pair {a,b} of the result is the old pair {a + [a>=v], b + [b>=v]}
 // (vertices above v move down by one); no panic beyond the documented one, termination.
-// The cached counts after RemoveVertex are covered by the bounded stand-in.
+// Bookkeeping: under countsOK before the call, every remaining vertex loses exactly one degree
+// per old edge to v and M drops by the old degree of v. That these values equal the counts of
+// the compacted triangle (countsOK afterwards) needs count lemmas under re-indexing that did not
+// discharge in time; it is covered by the bounded stand-in.
 //@ func (*DenseGraph).RemoveVertex
 //@   requires sizesDense(g) && 0 <= v
 //@   panics when v >= g.NumberOfVertices
 //@   modifies g, g.Edges, g.DegreeSequence
 //@   ensures sizesDense(g) && g.NumberOfVertices == old(g.NumberOfVertices) - 1
 //@   ensures [relation] forall b in 0..g.NumberOfVertices: forall a in 0..b: g.Edges[tri(b) + a] == old(g.Edges)[tri(b + (b >= v ? 1 : 0)) + a + (a >= v ? 1 : 0)]
-//@   opt lemmas=triMono
+//@   ensures [degLow] old(countsOK(g)) ==> forall u in 0..v: g.DegreeSequence[u] == old(g.DegreeSequence)[u] - (old(g.Edges)[tri(v) + u] > 0 ? 1 : 0)
+//@   ensures [degHigh] old(countsOK(g)) ==> forall u in v..g.NumberOfVertices: g.DegreeSequence[u] == old(g.DegreeSequence)[u+1] - (old(g.Edges)[tri(u+1) + v] > 0 ? 1 : 0)
+//@   ensures [m] old(countsOK(g)) ==> g.NumberOfEdges == old(g.NumberOfEdges) - old(g.DegreeSequence)[v]
+//@   opt lemmas=triMono,cntPosBound,rowCntBound,colCntBound
 //@   opt axiomatize=tri
 //@   opt patterns=simple
 //@   opt wrapcounters=NumberOfEdges,DegreeSequence
@@ -323,16 +329,28 @@ package graph
 //@   loop 1
 //@     invariant 0 <= i && i <= v && tmp == tri(v) && v < g.NumberOfVertices && sizesDense(g) && g.NumberOfVertices == old(g.NumberOfVertices) && sameslice(g.Edges, old(g.Edges)) && sameslice(g.DegreeSequence, old(g.DegreeSequence))
 //@     invariant forall p in 0..len(g.Edges): g.Edges[p] == old(g.Edges)[p]
+//@     invariant old(countsOK(g)) ==> g.NumberOfEdges == old(g.NumberOfEdges) - old(g.DegreeSequence)[v]
+//@     invariant old(countsOK(g)) ==> forall u in 0..i: g.DegreeSequence[u] == old(g.DegreeSequence)[u] - (old(g.Edges)[tri(v) + u] > 0 ? 1 : 0)
+//@     invariant forall u in i..g.NumberOfVertices: g.DegreeSequence[u] == old(g.DegreeSequence)[u]
 //@     decreases v - i
 //@   loop 2
 //@     invariant v + 1 <= i && i <= g.NumberOfVertices && v < g.NumberOfVertices && sizesDense(g) && g.NumberOfVertices == old(g.NumberOfVertices) && sameslice(g.Edges, old(g.Edges)) && sameslice(g.DegreeSequence, old(g.DegreeSequence))
 //@     invariant forall p in 0..len(g.Edges): g.Edges[p] == old(g.Edges)[p]
+//@     invariant old(countsOK(g)) ==> g.NumberOfEdges == old(g.NumberOfEdges) - old(g.DegreeSequence)[v]
+//@     invariant old(countsOK(g)) ==> forall u in 0..v: g.DegreeSequence[u] == old(g.DegreeSequence)[u] - (old(g.Edges)[tri(v) + u] > 0 ? 1 : 0)
+//@     invariant g.DegreeSequence[v] == old(g.DegreeSequence)[v]
+//@     invariant old(countsOK(g)) ==> forall u in v+1..i: g.DegreeSequence[u] == old(g.DegreeSequence)[u] - (old(g.Edges)[tri(u) + v] > 0 ? 1 : 0)
+//@     invariant forall u in i..g.NumberOfVertices: g.DegreeSequence[u] == old(g.DegreeSequence)[u]
+//@     use triMono(i, g.NumberOfVertices)
 //@     decreases g.NumberOfVertices - i
 //@   loop 3
 //@     invariant v + 1 <= j && j <= g.NumberOfVertices && g.NumberOfVertices == old(g.NumberOfVertices) && 0 <= v && sameslice(g.Edges, old(g.Edges)) && len(g.Edges) == tri(g.NumberOfVertices) && g.NumberOfVertices <= 16777216 && len(g.DegreeSequence) == g.NumberOfVertices - 1
 //@     invariant (j == v+1 && oldIndex == tri(v+1) - 1 && newIndex == tri(v)) || (j > v+1 && oldIndex == tri(j-1) + v && newIndex == tri(j-2) + v)
 //@     invariant forall p in oldIndex+1..len(g.Edges): g.Edges[p] == old(g.Edges)[p]
 //@     invariant forall b in 0..j-1: forall a in 0..b: tri(b) + a < newIndex ==> g.Edges[tri(b) + a] == old(g.Edges)[tri(b + (b >= v ? 1 : 0)) + a + (a >= v ? 1 : 0)]
+//@     invariant old(countsOK(g)) ==> g.NumberOfEdges == old(g.NumberOfEdges) - old(g.DegreeSequence)[v]
+//@     invariant old(countsOK(g)) ==> forall u in 0..v: g.DegreeSequence[u] == old(g.DegreeSequence)[u] - (old(g.Edges)[tri(v) + u] > 0 ? 1 : 0)
+//@     invariant old(countsOK(g)) ==> forall u in v..g.NumberOfVertices-1: g.DegreeSequence[u] == old(g.DegreeSequence)[u+1] - (old(g.Edges)[tri(u+1) + v] > 0 ? 1 : 0)
 //@     use triStep(j-1)
 //@     use triStep(j-2)
 //@     use triStep(j-3)
